@@ -1062,6 +1062,24 @@ func GrammarGen(cfg GenConfig) *rapid.Generator[*Grammar] {
 		}
 		c.g.Rules = append(rules, recRules...)
 		c.g.Entries = append([]string{}, entries...)
+		if cfg.StateBlocks && !cfg.NoSpellings && c.chance(10, "mutualstate") {
+			// Grp = "(" Ent* Grp? ")" #{..} ; Ent = Itm "," ; Itm = Grp / t : the sequence of Ent
+			// changes the state only through a reference to a rule that is mutually recursive with
+			// the one that holds the block, and fails behind it when the comma is missing
+			sb := c.stateBlock()
+			sb.Ops = append(sb.Ops, StateOp{Op: "incr", Key: "k2"})
+			grp := &Rule{Name: "Grp", Expr: &Expr{K: KSeq, Sub: []*Expr{Lit("("),
+				{K: KStar, Sub: []*Expr{{K: KRef, Name: "Ent"}}}, {K: KOpt, Sub: []*Expr{{K: KRef, Name: "Grp"}}}, Lit(")"), sb}}}
+			ent := &Rule{Name: "Ent", Expr: &Expr{K: KSeq, Sub: []*Expr{{K: KRef, Name: "Itm"}, Lit(",")}}}
+			itm := &Rule{Name: "Itm", Expr: &Expr{K: KChoice, Sub: []*Expr{{K: KRef, Name: "Grp"}, c.consuming()}}}
+			if c.chance(50, "mutualorder") {
+				c.g.Rules = append(c.g.Rules, itm, ent, grp)
+			} else {
+				c.g.Rules = append(c.g.Rules, grp, ent, itm)
+			}
+			entries = append(entries, "Grp")
+			c.g.Entries = append(c.g.Entries, "Grp")
+		}
 		bigKind := map[string]string{}
 		if !cfg.NoScale && c.chance(10, "scale") {
 			// big entry rules (scale.go)
